@@ -200,6 +200,10 @@ class Socket:
         for s in net.connected.get((self.kind, a), []):
             if s.gone or s.closed: continue
             self.peers.append(s); s.peers = [p for p in s.peers if not p.gone and not p.closed] + [self]
+            # sockets that were waiting for this address (re)connect now, each with its own connection latency (slow joiner again: SUB later than PUSH)
+            cd = net.conn_delay_fn(s) if net.conn_delay_fn else 0
+            s.active_at = net.now + cd
+            if s.kind == PUSH and not (isinstance(cd, int) and cd == 0): net.at(s.active_at, s.flush)
             s.flush()
 
     def connect(self, a):
